@@ -58,6 +58,43 @@ def site_effects(F, fn, S):
                 if r[0] == "const":
                     c = sem.const_int(r[1])
             eff[bi] = (-c) if c is not None else None
+    # pop_roots(v.len()) where v collects exactly what a loop pushed as roots: the loop's pushes and this pop cancel
+    from .f9_empty import _ref_target
+    for bi, t in fn.calls():
+        if eff.get(bi, 0) is not None:
+            continue
+        s = S.get(t["f"])
+        a = t["args"][s[1]] if s and s[0] == "negarg" and s[1] < len(t["args"]) else None
+        r = fn.root_of(a) if a is not None else ("unknown",)
+        extra = 0
+        if r[0] == "rvalue" and r[1]["k"] in ("bin", "checked") and r[1]["op"] in ("Add", "AddWithOverflow"):
+            c_ = sem.const_int(r[1]["b"])
+            if c_ is not None:
+                extra = c_
+                r = fn.root_of(r[1]["a"])
+        if r[0] == "place":
+            # (len + c).0 of a checked add
+            sd_ = fn.single_def(r[1]["l"])
+            if sd_ and sd_[0] == "assign" and sd_[1]["k"] in ("bin", "checked") and sd_[1]["op"] in ("Add", "AddWithOverflow") and sem.const_int(sd_[1]["b"]) is not None:
+                extra = sem.const_int(sd_[1]["b"])
+                r = fn.root_of(sd_[1]["a"])
+        if r[0] != "call" or lastseg(r[1]["f"]) != "len" or not r[1]["args"]:
+            continue
+        v = _ref_target(fn, r[1]["args"][0])
+        if v is None:
+            continue
+        vpush = [b2 for b2, t2 in fn.calls() if lastseg(t2["f"]) == "push" and t2["args"] and _ref_target(fn, t2["args"][0]) == v]
+        if len(vpush) != 1:
+            continue
+        vb = vpush[0]
+        in_loop = lambda b: any(sem.reaches(fn, s_, b) for s_ in fn.succ(b))
+        if not in_loop(vb):
+            continue
+        # root pushes that run exactly when v.push runs (same iteration: each reaches the other without leaving through the pop)
+        paired = [b2 for b2 in eff if eff[b2] == 1 and in_loop(b2) and (fn.dominates(vb, b2) or fn.dominates(b2, vb)) and sem.reaches(fn, vb, b2, avoid=(bi,)) and sem.reaches(fn, b2, vb, avoid=(bi,))]
+        if len(paired) == 1:
+            eff[paired[0]] = 0
+            eff[bi] = -extra
     return eff
 
 
